@@ -14,6 +14,10 @@ from checks.common import Check, pool
 from harness import tlc
 
 
+# texts of the injected consumer failure (whatever the exception says, the worker reports itself unhealthy)
+FAIL_TEXT = ["broker connection lost (injected)", "lost {conn} after {0} retries {", "{'code': 320, 'text': 'CONNECTION_FORCED'}", "100% {} %s %(x)s"]
+
+
 def gen_bytes(cls: str, ep: str, rng: random.Random) -> bytes:
     hdrs = "Host: localhost\r\nUser-Agent: probe/1.0\r\nAccept: */*\r\n"
     if cls == "get_ep":
@@ -96,12 +100,12 @@ async def scenario(loop, sc):
             async def consume():
                 if vloop.CLOCK.us >= fail_at * 1000:
                     failed.setdefault("step", loop.steps)
-                    raise ConnectionError("broker connection lost (injected)")
+                    raise ConnectionError(FAIL_TEXT[fail_at % len(FAIL_TEXT)])
                 try:
                     return await asyncio.wait_for(orig_consume(), max(0.001, (fail_at * 1000 - vloop.CLOCK.us) / 1e6))
                 except asyncio.TimeoutError:
                     failed.setdefault("step", loop.steps)
-                    raise ConnectionError("broker connection lost (injected)") from None
+                    raise ConnectionError(FAIL_TEXT[fail_at % len(FAIL_TEXT)]) from None
             c.consume = consume
             if sc.get("slow_pause_ms"):
                 # pausing a consumer is a broker round trip on some brokers: it takes time (and the status must not wait for it)
@@ -186,8 +190,14 @@ async def scenario(loop, sc):
         ev.append({"e": "probe", "serving": serving()})
         if not run_task.done():
             runners[0].sync_stop_wait_and_cancel(0.2)
-        await asyncio.wait_for(run_task, 30)
-        ev.append({"e": "run_end", "serving": serving()})
+        raised = False
+        try:
+            await asyncio.wait_for(run_task, 30)
+        except asyncio.TimeoutError:
+            raise
+        except Exception:  # noqa: BLE001
+            raised = True
+        ev.append({"e": "run_end", "serving": serving(), "raised": raised})
         for _again in range(sc.get("more_runs", 0)):          # the same Worker object is run again
             runners.clear()
             run_task = asyncio.ensure_future(w.run())
@@ -211,7 +221,7 @@ async def scenario(loop, sc):
             if not run_task.done() and runners:
                 runners[0].sync_stop_wait_and_cancel(0.2)
             await asyncio.wait_for(run_task, 30)
-            ev.append({"e": "run_end", "serving": serving()})
+            ev.append({"e": "run_end", "serving": serving(), "raised": False})
         expected = njobs if fail_at is None else None
         if expected is not None:
             ev.append({"e": "jobs", "done": len(done), "expected": expected})
@@ -230,8 +240,8 @@ def make_scenarios(tier, rng):
     scs = []
     classes = ["get_ep", "get_other", "other_method", "fragment", "binary", "empty", "short_line", "oversized"]
     for n in range({"quick": 40, "thorough": 400}[tier]):
-        ep = rng.choice(["/healthz", "/health", "/health-check", "/h", "/a/b"])
-        fail_at = rng.choice([None, None, 20, 120])
+        ep = rng.choice(["/healthz", "/health", "/health-check", "/h", "/a/b", "/health/", "/"])
+        fail_at = rng.choice([None, None, 20, 120, 21, 122, 23])
         steps = []
         for k in range(rng.randint(3, 10)):
             r = rng.random()
